@@ -11,14 +11,14 @@ CHECKS = {
     "C17": dict(
         category="model_checking", design_ref="5.12",
         technique="TLA+ specs Dispatch.tla and Sched.tla checked exhaustively with TLC (invariants + liveness under fairness); every transition of Dispatch replayed on the real sendFileState, every input of the model run through the real SendManifestMultiStream against a scripted receiver, the real HybridScheduler walked along Sched.tla's state graph",
-        text="TLC explores every interleaving of <=3 workers with report/verdict arrival for all inputs up to 4 chunks (invariants + liveness under fairness); each transition of that state graph is replayed call-by-call on the real sendFileState with the property oracle evaluated on the real return values; every input (bitmap, tail, hash verdict, report early / late / none) runs through the real sender against a scripted conformant receiver and the frames are judged with a logical clock shared with the hooks; the real scheduler is stepped the way the sender uses it and must answer within what Sched.tla allows, every file begun exactly once.",
+        text="TLC explores every interleaving of <=3 workers with report/verdict arrival for all inputs up to 4 chunks (invariants + liveness under fairness); each transition of that state graph is replayed call-by-call on the real sendFileState with the property oracle evaluated on the real return values; every input (bitmap, tail, hash verdict, report early / late / none) runs through the real sender against a scripted conformant receiver and the frames are judged with a logical clock shared with the hooks; the real scheduler is stepped the way the sender uses it and must answer within what Sched.tla allows, every file begun exactly once. The end-to-end runs also take a family of bitmaps over 8 and 16 chunks and use the CLI's resume timeout.",
         note="trusted: TLC, the shim's mirror of the applyResumeInfo lock regions (bound by the end-to-end runs), bounds chunks<=4 workers<=3"),
 }
 
 CHECKS["C12"] = dict(
     category="model_checking", design_ref="5.7",
     technique="TLA+ spec Admission.tla checked exhaustively with TLC (all event sequences to a depth bound) and by simulation; every transition replayed on a real SnapshotSender with stub transfers; multi-receiver sessions of the real thru host / thru join binaries judged on the host's hook trace; DispatchLoop.tla (the scheduler loop at the grain of its lock regions) checked exhaustively and replayed on the real maybeStartTransfers with gated dispatcher goroutines",
-    text="TLC enumerates every sequence of join/accept/leave/complete/tick events over 3 receivers up to the depth bound for max-receivers 1 and 2 (11 invariants incl. live-transfer bound, FIFO, no silent drop, work conservation); each transition is replayed on the real SnapshotSender, comparing queue/slots/statuses/emitted messages with the spec and evaluating the property on the stub-transfer census after every event. Real binaries: a host with max-receivers M and M+2 joins started together; all trees identical, never more than M transfers between start and end / peer-left-release, queued receivers started in order. DispatchLoop.tla models the scheduler loop at the grain of its lock regions (dispatchers = read-loop calls and transfer tails, one action per iteration; negative control: free slots counted once); every transition is replayed on the real maybeStartTransfers with all dispatcher goroutines - the real runTransfer tails included - parked at host.emit.start; the same loop also runs free with batches of transfers ending together.",
+    text="TLC enumerates every sequence of join/accept/leave/complete/tick events over 3 receivers up to the depth bound for max-receivers 1 and 2 (11 invariants incl. live-transfer bound, FIFO, no silent drop, work conservation); each transition is replayed on the real SnapshotSender, comparing queue/slots/statuses/emitted messages with the spec and evaluating the property on the stub-transfer census after every event. Real binaries: a host with max-receivers M and M+2 joins started together; all trees identical, never more than M transfers between start and end / peer-left-release, queued receivers started in order. DispatchLoop.tla models the scheduler loop at the grain of its lock regions (dispatchers = read-loop calls and transfer tails, one action per iteration; negative control: free slots counted once); every transition is replayed on the real maybeStartTransfers with all dispatcher goroutines - the real runTransfer tails included - parked at host.emit.start; the same loop also runs free with batches of transfers ending together. Five receivers behind one slot in simulation (queues of three and more, receivers leaving from the middle).",
     note="trusted: TLC, the stub transfer function as ground truth, the environment assumption join->accept*->leave per receiver; bounds 3 receivers, depth 8 (quick) / 10 (thorough) + simulated depth 40/60")
 
 CHECKS["C11"] = dict(
@@ -30,98 +30,98 @@ CHECKS["C11"] = dict(
 CHECKS["C19"] = dict(
     category="model_checking", design_ref="5.14",
     technique="TLA+ spec Geometry.tla: theorems decided symbolically by Apalache over the full 10 TiB x 2^32 range, small domain enumerated by TLC; function table and Apalache-checked observation table bind the spec to the real Go functions",
-    text="Apalache proves tiling and agreement of the four chunk-count expressions for every size up to 10 TiB and every chunk size up to 2^32-1 (and refutes the negative controls); TLC enumerates a small domain with a small word so truncation is visited; every table row and boundary/random large pairs are evaluated on the real chunkTotal / chunkSizeForIndex / CreateSidecar with an independent tiling oracle, and the large observations are re-checked against the operators by Apalache. Real transfers with chunk sizes of 1 to 64 MiB and sizes around their multiples (the sender's block-wise reads), and resumed transfers over metadata left by an attempt with another chunk size (the metadata the transfer works with must carry the transfer's chunk size and count).",
+    text="Apalache proves tiling and agreement of the four chunk-count expressions for every size up to 10 TiB and every chunk size up to 2^32-1 (and refutes the negative controls); TLC enumerates a small domain with a small word so truncation is visited; every table row and boundary/random large pairs are evaluated on the real chunkTotal / chunkSizeForIndex / CreateSidecar with an independent tiling oracle, and the large observations are re-checked against the operators by Apalache. Real transfers with chunk sizes of 1 to 64 MiB and sizes around their multiples (the sender's block-wise reads), and resumed transfers over metadata left by an attempt with another chunk size (the metadata the transfer works with must carry the transfer's chunk size and count). Source files that shrink / grow / vanish after the scan and stale longer files in the output directory are judged for the sums and the tiling as well.",
     note="trusted: Apalache + z3, TLC; the receiver-side expression is bound by the transfer checks")
 
 _T = "TLA+ spec Transfer.tla (control + data streams with QUIC visibility, workers, readers, faults) checked exhaustively with TLC; TransferGrid.tla enumerates the configuration grid whose rows are executed as real transfers over simulated and real QUIC transports, judged by return values and output-tree digest; the hook traces of those transfers are validated with TLC against SessionTrace.tla"
 CHECKS["C01"] = dict(
     category="model_checking", design_ref="5.1",
     technique=_T,
-    text="TLC checks Fidelity (both ok => every chunk written correctly) for every interleaving of workers, readers and control handling over a family of file/chunk/stream/slot configurations, under QUIC and mock stream visibility; a seeded sample (thorough: thousands) of the TLC-enumerated configuration grid (13 tree classes x chunk sizes x streams x connections x resume x root-dir mode x scan mode x 3 transports) is run on the real code and the output directory is compared byte for byte with the source whenever both sides report success; plus non-empty output directories with stale files, sparse files beyond 4 GiB and many-chunk / many-file contention runs (xfer-special). Further input regions (xfer-special): leftovers of an attempt with another chunk size (partly written file plus metadata with holes), trees with symbolic links to regular files, chunk sizes of 1 to 64 MiB.",
+    text="TLC checks Fidelity (both ok => every chunk written correctly) for every interleaving of workers, readers and control handling over a family of file/chunk/stream/slot configurations, under QUIC and mock stream visibility; a seeded sample (thorough: thousands) of the TLC-enumerated configuration grid (13 tree classes x chunk sizes x streams x connections x resume x root-dir mode x scan mode x 3 transports) is run on the real code and the output directory is compared byte for byte with the source whenever both sides report success; plus non-empty output directories with stale files, sparse files beyond 4 GiB and many-chunk / many-file contention runs (xfer-special). Further input regions (xfer-special): leftovers of an attempt with another chunk size (partly written file plus metadata with holes), trees with symbolic links to regular files, chunk sizes of 1 to 64 MiB. Also: sources with runs of zeros covering whole chunks over stale non-zero files, and several selections with the same base name given out of lexical order, opened through the application's real path resolver.",
     note="trusted: TLC, the vnet transport model (checked against loopback QUIC by running the same grid on both), sha256; contents are seeded random bytes")
 CHECKS["C03"] = dict(
     category="model_checking", design_ref="5.1",
     technique=_T,
-    text="TLC checks deadlock freedom and eventual success (fair scheduling) of Transfer.tla without faults, including QUIC stream visibility with fewer busy workers than streams, empty manifests and zero-length files; the pinned commit's blocking accept loop and ack-before-count orderings are refuted as negative controls; the configuration grid is run on the real code under a watchdog, hangs are classified from goroutine dumps. Further: one connection with one stream and files above the scheduler's small-file threshold, large chunk sizes, and prior histories of interrupted transfers (plain, torn highest chunk, complete file with a torn last chunk) resumed with duplicates over data streams that lag behind the control stream - all must succeed.",
+    text="TLC checks deadlock freedom and eventual success (fair scheduling) of Transfer.tla without faults, including QUIC stream visibility with fewer busy workers than streams, empty manifests and zero-length files; the pinned commit's blocking accept loop and ack-before-count orderings are refuted as negative controls; the configuration grid is run on the real code under a watchdog, hangs are classified from goroutine dumps. Further: one connection with one stream and files above the scheduler's small-file threshold, large chunk sizes, and prior histories of interrupted transfers (plain, torn highest chunk, complete file with a torn last chunk) resumed with duplicates over data streams that lag behind the control stream - all must succeed. Also: data streams 6.5 s behind the control stream, resume information that arrives after the sender's grace period, names that are reserved devices on another platform.",
     note="trusted: TLC, watchdog windows (5 s simulated, 10 s loopback QUIC, repeat required), vnet's visibility rule")
 CHECKS["C02"] = dict(
     category="fault_enumeration", design_ref="5.1",
     technique="TLA+ spec Transfer.tla with fault actions checked exhaustively with TLC (no false success, both sides return); fault enumeration on the real code: connection close/loss at every byte offset of every stream, payload/checksum bit flips per frame, cancellation steps, source and sink faults",
-    text="TLC explores a graceful close, an abrupt loss or a corrupted chunk at every point of every interleaving of the protocol model; on the real code a tiny transfer is repeated with the fault injected at every byte position of every stream and direction (thorough: stride 1), every payload/CRC byte flipped, each side cancelled at every 8-byte step and the source/sink damaged; the oracle is the pair of return values, the receiver's per-file confirmations and the output-tree digest. The enumeration runs a second time over a tree of nothing but empty files and empty directories (no chunk flows; obstruction by a directory where a file goes and by a regular file where a directory goes).",
+    text="TLC explores a graceful close, an abrupt loss or a corrupted chunk at every point of every interleaving of the protocol model; on the real code a tiny transfer is repeated with the fault injected at every byte position of every stream and direction (thorough: stride 1), every payload/CRC byte flipped, each side cancelled at every 8-byte step and the source/sink damaged; the oracle is the pair of return values, the receiver's per-file confirmations and the output-tree digest. The enumeration runs a second time over a tree of nothing but empty files and empty directories (no chunk flows; obstruction by a directory where a file goes and by a regular file where a directory goes). Payload flips are repeated under every hash option of the sender; the dumb-mode reader is fed streams that end before the announced size.",
     note="trusted: TLC, vnet's fault semantics (connection error texts follow quic-go), the 6 s watchdog")
 
 _R = "TLA+ spec Resume.tla (output-file chunks, in-memory bitmap, sidecar and temp file, two chunk writers, phase-split flusher, Kill in every state, restart and sender plan) checked exhaustively with TLC"
 CHECKS["C05"] = dict(
     category="fault_enumeration", design_ref="5.2",
     technique=_R + "; real receiver process SIGKILLed at every hook point / hit, write faults, and an in-process post-mortem observer; disk inspected with the real LoadSidecar; data-file-lost resume cases; child traces validated with TLC against SessionTrace.tla",
-    text="TLC shows that in every reachable state (every kill point of every interleaving of two writers with snapshot / temp-file / rename) a readable sidecar marks only chunks present in the file and that the final name is never torn, and refutes mark-before-write and flush-in-place. On the real code a receiver process kills itself at the k-th hit of each hook point (with and without a concurrent flush), writes fail at every half-chunk boundary, and an observer performs the post-mortem continuously during transfers with racing flushers. Further: metadata against the file after resumed transfers over leftovers of an attempt with another chunk size, and over a sparse file beyond 4 GiB (chunk offsets cross 2^32).",
+    text="TLC shows that in every reachable state (every kill point of every interleaving of two writers with snapshot / temp-file / rename) a readable sidecar marks only chunks present in the file and that the final name is never torn, and refutes mark-before-write and flush-in-place. On the real code a receiver process kills itself at the k-th hit of each hook point (with and without a concurrent flush), writes fail at every half-chunk boundary, and an observer performs the post-mortem continuously during transfers with racing flushers. Further: metadata against the file after resumed transfers over leftovers of an attempt with another chunk size, and over a sparse file beyond 4 GiB (chunk offsets cross 2^32). Also: zero-run sources over stale files and a damaged duplicate of an already marked chunk, each followed by the post-mortem.",
     note="trusted: TLC, SIGKILL semantics (page cache kept), hook placement")
 CHECKS["C04"] = dict(
     category="fault_enumeration", design_ref="5.2",
     technique=_R + "; every kill is followed by a real resumed run (digest, advertised bitmap vs sidecar on disk, chunks framed again); all consistent on-disk states (2^n bitmaps) built with the real Sidecar API and resumed; real thru join processes killed in mid-transfer and resumed / overwritten by a second real join; child traces validated with TLC against SessionTrace.tla",
-    text="TLC shows that after any chain of up to 3 kills a completed run leaves every chunk good, that the advertised bitmap equals the persisted one and that a run can always complete. On the real code each kill of the enumeration is followed by a resumed run over loopback QUIC that must succeed with an identical tree; FileResumeInfo frames captured on the sender's control stream are compared with the sidecars found after the kill; every bitmap of a 5- (thorough 7-) chunk file is resumed.",
+    text="TLC shows that after any chain of up to 3 kills a completed run leaves every chunk good, that the advertised bitmap equals the persisted one and that a run can always complete. On the real code each kill of the enumeration is followed by a resumed run over loopback QUIC that must succeed with an identical tree; FileResumeInfo frames captured on the sender's control stream are compared with the sidecars found after the kill; every bitmap of a 5- (thorough 7-) chunk file is resumed. Also: leftovers of an attempt with another chunk size, and resume information that reaches the sender only after its grace period (it must still count).",
     note="trusted: TLC, loopback QUIC, the tap on the sender's control stream")
 CHECKS["C06"] = dict(
     category="fault_enumeration", design_ref="5.2",
     technique=_R + " from tampered initial states; every single-bit flip / truncation / garbage / foreign identity of a real sidecar and every damage class of the data file applied to a real interrupted directory, then LoadSidecar and a real resumed transfer (also over a transport whose data streams lag behind the control stream)",
-    text="TLC starts Resume.tla from every combination of {absent, garbage, foreign, valid(any bitmap)} sidecar with {present, deleted/shortened} data file and a torn highest chunk, and refutes the pinned commit's trust in a sidecar whose data file is gone. The real code is run from each concretised state (thorough: all 392 bit flips, 49 truncations, garbage, foreign fields, truncation around every chunk boundary, torn chunks, completed-file-with-torn-last-chunk) and must end identical or fail loudly. Further: the highest complete chunk of a sparse file torn beyond the 4 GiB mark (hash offsets cross 2^32) must be repaired; on the real binaries a completed or interrupted download is changed by hand and the second join answers 'overwrite' - the old metadata must not make the new download skip anything.",
+    text="TLC starts Resume.tla from every combination of {absent, garbage, foreign, valid(any bitmap)} sidecar with {present, deleted/shortened} data file and a torn highest chunk, and refutes the pinned commit's trust in a sidecar whose data file is gone. The real code is run from each concretised state (thorough: all 392 bit flips, 49 truncations, garbage, foreign fields, truncation around every chunk boundary, torn chunks, completed-file-with-torn-last-chunk) and must end identical or fail loudly. Further: the highest complete chunk of a sparse file torn beyond the 4 GiB mark (hash offsets cross 2^32) must be repaired; on the real binaries a completed or interrupted download is changed by hand and the second join answers 'overwrite' - the old metadata must not make the new download skip anything. Resume.tla models handleFileBegin in three steps with a kill possible in between (negative control: file sized before untrusted metadata is dropped); a real receiver process is killed at that point (hook recv.file.sized) after the data file was deleted or shortened, then resumed. Late resume information with a torn highest chunk and a slow statistics callback must still lead to the repair.",
     note="trusted: TLC; covers flips/truncations of one valid sidecar and sampled garbage, not arbitrary byte strings")
 
 _W = "TLA+ spec Wire.tla (record grammar: typed field lists, length prefixes, protocol stages, mutation kinds) enumerated exhaustively with TLC"
 CHECKS["C18"] = dict(
     category="exploration", design_ref="5.13",
     technique=_W + "; every enumerated abstract value and record sequence is concretised, encoded with the real encoder, length-checked against the spec's EncodedLen and decoded with the real decoder from whole / 1200-byte / 7-byte reads",
-    text="The specification is the frame layout; TLC enumerates every record type x variable-length boundary class x single and pairwise numeric boundary tuple (about 2600 abstract values) and all type sequences up to length 3 (thorough 4); each is concretised with seeded fillings and must round-trip through the real encoder and decoder consuming exactly the written bytes, also when the stream returns short reads. The spec acts as generator and oracle for a pure function, so the level claimed is exploration. Live streams: the control-stream bytes that real multi-file resumed transfers write in either direction (the sender yielding the processor after every write) are decoded with the real decoder, header then record after record to the last byte.",
+    text="The specification is the frame layout; TLC enumerates every record type x variable-length boundary class x single and pairwise numeric boundary tuple (about 2600 abstract values) and all type sequences up to length 3 (thorough 4); each is concretised with seeded fillings and must round-trip through the real encoder and decoder consuming exactly the written bytes, also when the stream returns short reads. The spec acts as generator and oracle for a pure function, so the level claimed is exploration. Live streams: the control-stream bytes that real multi-file resumed transfers write in either direction (the sender yielding the processor after every write) are decoded with the real decoder, header then record after record to the last byte. Delivery patterns include the last piece arriving together with end-of-stream; decoded values are compared after the whole sequence has been decoded.",
     note="trusted: TLC as enumerator; values inside the protocol's field limits, plus path lengths just over the limit (the encoder must refuse or stay decodable)")
 CHECKS["C15"] = dict(
     category="exploration", design_ref="5.10",
     technique=_W + "; every (stage, record type, mutation) is concretised and fed to the real decoders and to the real receiving / sending endpoint by a scripted hostile peer, in child processes with an address-space limit; DumbWire.tla enumerates the dumb-mode record and its truncations for the real reader",
-    text="TLC enumerates the structured mutation space (72 stage/type/mutation rows); each row is concretised with seeded fillings and run against the real record decoders and the real endpoints (RecvManifestMultiStream with a scripted sender, SendManifestMultiStream with a scripted receiver). Oracle on the real behaviour: no panic or crash (child exit status), return within 4 s after the input ended, heap growth bounded by the bytes received (plus a 3 GiB address-space limit), and no success for a stream the grammar rejects; data streams that end inside a frame are also run with the control stream kept open and silent. DumbWire.tla enumerates the record of the dumb transfer modes (name length x size class x place where the stream ends); the real reader is fed each from memory, over loopback TCP and over a simulated stream, the real writer runs against a peer that goes away.",
+    text="TLC enumerates the structured mutation space (72 stage/type/mutation rows); each row is concretised with seeded fillings and run against the real record decoders and the real endpoints (RecvManifestMultiStream with a scripted sender, SendManifestMultiStream with a scripted receiver). Oracle on the real behaviour: no panic or crash (child exit status), return within 4 s after the input ended, heap growth bounded by the bytes received (plus a 3 GiB address-space limit), and no success for a stream the grammar rejects; data streams that end inside a frame are also run with the control stream kept open and silent. DumbWire.tla enumerates the record of the dumb transfer modes (name length x size class x place where the stream ends); the real reader is fed each from memory, over loopback TCP and over a simulated stream, the real writer runs against a peer that goes away. Further mutations: chunk size far beyond the file, FileBegin after the file is done, every FileDone sent twice, resume information whose huge chunk count and bitmap length agree.",
     note="trusted: TLC as enumerator, the scripted peers; structure-aware mutation, not arbitrary byte strings")
 
 CHECKS["C07"] = dict(
     category="exploration", design_ref="5.3",
     technique="TLA+ spec Paths.tla (lexical path algebra, the five peer-controlled values with sinks and guards) enumerated exhaustively with TLC; each case is a hostile scripted sender against the real receiver - or, for the signaling offer's root name, a scripted host against the real thru join binary - inside a jail with before/after snapshots",
-    text="TLC enumerates every segment sequence up to 2 (thorough 3) segments over 8 segment classes (incl. a path over the 1024-byte limit) for each of manifest.root, directory rel_path, file rel_path / FileBegin, item.id and the root name of the signaling manifest offer, in both root-directory modes with resume on and off, and checks that the guard rejects the value or the cleaned target stays below the output directory (the pinned commit's guards are refuted). Every case is then transmitted by a scripted sender to the real RecvManifestMultiStream (offer root names: offered by a scripted host to the real binary whose user accepts and chooses overwrite / resume); nothing around the output directory may be created, modified or deleted. FileBegin.rel_path is also enumerated on its own (benign manifest, record carrying the key and size of a listed file and another path; negative control: record matched by key alone); the process's temporary directory lies inside the observed jail and every third case blocks the metadata directory with a listed file of that name.",
+    text="TLC enumerates every segment sequence up to 2 (thorough 3) segments over 8 segment classes (incl. a path over the 1024-byte limit) for each of manifest.root, directory rel_path, file rel_path / FileBegin, item.id and the root name of the signaling manifest offer, in both root-directory modes with resume on and off, and checks that the guard rejects the value or the cleaned target stays below the output directory (the pinned commit's guards are refuted). Every case is then transmitted by a scripted sender to the real RecvManifestMultiStream (offer root names: offered by a scripted host to the real binary whose user accepts and chooses overwrite / resume); nothing around the output directory may be created, modified or deleted. FileBegin.rel_path is also enumerated on its own (benign manifest, record carrying the key and size of a listed file and another path; negative control: record matched by key alone); the process's temporary directory lies inside the observed jail and every third case blocks the metadata directory with a listed file of that name. Padded '..' names (' ..', '.. ', tab) are a segment class of their own and are offered as root names to the real binary; longer paths of the shape harmless first segment, two or three '..', a name are enumerated in full.",
     note="trusted: TLC as enumerator and oracle of the guard decision; the snapshot of the jail; Unix semantics")
 
 CHECKS["C08"] = dict(
     category="model_checking", design_ref="5.4",
     technique="TLA+ specs Auth.tla (symbolic two-message HMAC handshake bound to the TLS session, Dolev-Yao attacker with rogue dialer / rogue listener / relay positions) and AuthExtras.tla model-checked exhaustively with TLC; every terminal behaviour is an attack script replayed against the real authenticateTransport / acceptExtraConns / dialExtraConns over real loopback QUIC, with the alteration classes refined to every bit flip and truncation length; whole sessions and rogue peers against the real thru host / thru join binaries, hook traces validated with TLC against SessionTrace.tla",
-    text="TLC explores every attacker strategy (forge under known or guessed codes with its own sessions' keying material, replay of the current and an older session, reflection, role swap, alteration of version / role / nonce / mac, truncation, silence) in four topologies for every pair of codes and every set of codes the attacker knows, and checks that an honest end accepts only a peer that holds its code on its own TLS session, that two honest ends accept each other, that an altered message is rejected and that a connection is used only after a successful handshake (three switches are refuted as controls). Each behaviour is executed over real QUIC/TLS sessions with the real handshake code at the honest ends; the real extra-connection loops are run against scripted peers; rogue hosts and rogue receivers that take part in the real signaling misbehave at the authentication step against the real binaries (no transfer-phase event, no file, no byte beyond the proof), and honest whole sessions' traces must show no transfer-phase event before a successful auth.end. Extra connections are also attacked by an on-path relay: both real extra-connection loops run against each other through a UDP demultiplexer that forwards the earlier connections raw and terminates the last one, passing the two authentication messages on verbatim.",
+    text="TLC explores every attacker strategy (forge under known or guessed codes with its own sessions' keying material, replay of the current and an older session, reflection, role swap, alteration of version / role / nonce / mac, truncation, silence) in four topologies for every pair of codes and every set of codes the attacker knows, and checks that an honest end accepts only a peer that holds its code on its own TLS session, that two honest ends accept each other, that an altered message is rejected and that a connection is used only after a successful handshake (three switches are refuted as controls). Each behaviour is executed over real QUIC/TLS sessions with the real handshake code at the honest ends; the real extra-connection loops are run against scripted peers; rogue hosts and rogue receivers that take part in the real signaling misbehave at the authentication step against the real binaries (no transfer-phase event, no file, no byte beyond the proof), and honest whole sessions' traces must show no transfer-phase event before a successful auth.end. Extra connections are also attacked by an on-path relay: both real extra-connection loops run against each other through a UDP demultiplexer that forwards the earlier connections raw and terminates the last one, passing the two authentication messages on verbatim. Honest proofs are delivered in two pieces (an honest peer that is rejected is a violation); a rogue dialer abandons k connections the way an honest sender abandons the losers of its dial race and then pushes a file without authentication.",
     note="trusted: the symbolic treatment of HMAC and the TLS exporter; quic-go; the harness attacker's independent implementation of the proof formula")
 
 CHECKS["C09"] = dict(
     category="model_checking", design_ref="5.5",
     technique="TLA+ spec ConnRace.tla (per-path client/server handshake completion, result channel, cancel, accept queue, abandoned connections, authentication at both ends) model-checked exhaustively with TLC incl. a liveness property; TLC behaviours are replayed into the real ProbeAndDial (goroutines gated at the ice.dial.done hook, census at a real listener) and into the real `thru join` binary driven by a scripted host over the real thruserv; free-running dials and whole sessions of both binaries with traces validated against SessionTrace.tla",
-    text="TLC explores every interleaving of the client-side and server-side completions of up to three parallel handshakes, the offers to the result channel, the caller's take, cancellations, the acceptor's choice and the arrival of closes, and checks that the dialer keeps exactly one connection, that both ends authenticate on the same connection and that the acceptor never gives up while the dialer holds a connection (the pinned commit's two behaviours are refuted as controls). Each distinct dialing schedule is enforced on the real ProbeAndDial and the listener's open connections are compared with the returned one; each distinct server-visible order is played against the real receiver binary, whose hook trace shows the connection it ends up on. The TCP variant of the set-up (dumb-tcp mode) is bound the same way: real dialAddrs against real acceptWithContext behind one forwarder per announced address, plus whole --dumb-tcp sessions of the real binaries.",
+    text="TLC explores every interleaving of the client-side and server-side completions of up to three parallel handshakes, the offers to the result channel, the caller's take, cancellations, the acceptor's choice and the arrival of closes, and checks that the dialer keeps exactly one connection, that both ends authenticate on the same connection and that the acceptor never gives up while the dialer holds a connection (the pinned commit's two behaviours are refuted as controls). Each distinct dialing schedule is enforced on the real ProbeAndDial and the listener's open connections are compared with the returned one; each distinct server-visible order is played against the real receiver binary, whose hook trace shows the connection it ends up on. The TCP variant of the set-up (dumb-tcp mode) is bound the same way: real dialAddrs against real acceptWithContext behind one forwarder per announced address, plus whole --dumb-tcp sessions of the real binaries. A pion TURN server inside the sandbox (credentials minted by the real thruserv) relays whole sessions of the real binaries - relay available / relay only, 1 and 3 connections - and the accept scripts are replayed against a receiver that has a relay listener.",
     note="trusted: quic-go; the gate placement (after the client handshake); the scripted host's faithfulness to what a racing dialer does (connect, abandon with race_lost, authenticate on the kept connection)")
 
 CHECKS["C13"] = dict(
     category="exploration", design_ref="5.8",
     technique="TLA+ spec Scan.tla (universe forest, ordinal-prefix rule and walk transcribed as set comprehensions) enumerated exhaustively with TLC; the real ScanPaths and buildPathResolver run on every enumerated path list over the materialised forest and are compared with the spec's expected manifest and an independent oracle",
-    text="The specification computes, for every list of up to 3 (thorough 4; quick adds the 4-lists with two duplicated base names) paths over 10 candidates of a forest containing every node kind and name-collision pattern, the manifest that must result (and shows at design level that the ordinal-prefix scheme can produce duplicate paths). The real ScanPaths/resolver are run on each list with several spellings; the output must equal the expected manifest and satisfy uniqueness, order, totals, resolvability, size = readable bytes and determinism.",
+    text="The specification computes, for every list of up to 3 (thorough 4; quick adds the 4-lists with two duplicated base names) paths over 10 candidates of a forest containing every node kind and name-collision pattern, the manifest that must result (and shows at design level that the ordinal-prefix scheme can produce duplicate paths). The real ScanPaths/resolver are run on each list with several spellings; the output must equal the expected manifest and satisfy uniqueness, order, totals, resolvability, size = readable bytes and determinism. The universe also has names containing '..' and a backslash.",
     note="trusted: TLC as enumerator and reference implementation; a fixed forest, not arbitrary trees")
 
 CHECKS["C10"] = dict(
     category="model_checking", design_ref="5.6",
     technique="TLA+ spec Routing.tla (handler-level routing semantics computing every client's inbox) checked exhaustively to a depth bound and simulated with TLC; simulated histories executed by real WebSocket clients against the real thruserv binary with inbox-by-inbox comparison; Hub.tla transitions replayed on the real hub (routing oracles); a concurrent phase against the real server",
-    text="TLC checks isolation, per-pair FIFO and index consistency of the routing model for every history up to depth 5 (thorough 6) over 3 sockets / 2 peer ids / 2 sessions and on long simulated histories over 4 sockets / 3 peer ids; each simulated history (create, join incl. duplicate peer ids, leave, addressed / broadcast / spoofed / malformed sends) is replayed on the real server and after every step each client's real receive log must equal the model's inbox. The hub's phase-split interleavings are forced on the real hub and judged by the routing oracles; nine clients in three sessions with identical peer ids send addressed / broadcast / spoofed / unknown-addressee messages at once and the logs are judged by the per-pair predicates.",
+    text="TLC checks isolation, per-pair FIFO and index consistency of the routing model for every history up to depth 5 (thorough 6) over 3 sockets / 2 peer ids / 2 sessions and on long simulated histories over 4 sockets / 3 peer ids; each simulated history (create, join incl. duplicate peer ids, leave, addressed / broadcast / spoofed / malformed sends) is replayed on the real server and after every step each client's real receive log must equal the model's inbox. The hub's phase-split interleavings are forced on the real hub and judged by the routing oracles; nine clients in three sessions with identical peer ids send addressed / broadcast / spoofed / unknown-addressee messages at once and the logs are judged by the per-pair predicates. The concurrent phase is repeated against a TURN-issuing server with peer ids containing ':' '@' '%'.",
     note="trusted: TLC, the settle wait before comparing inboxes; concurrency inside the hub is C11's subject")
 CHECKS["C14"] = dict(
     category="model_checking", design_ref="5.9",
     technique="TLA+ spec Server.tla (admission paths as processes with separate check and act steps, discrete time, expiry, host disconnect) checked exhaustively with TLC; real thruserv binary driven through sequential and hook-delayed concurrent scenarios, plus overlay-injected in-package tests: stress of the limiter primitives and forced join-code collisions",
-    text="TLC explores all interleavings of 4 concurrent requests under limit values {0,1,2} and checks admission-only-while-live, the three counted limits and 'zero means off' (check-then-act enforcement is refuted); the real binary is started per scenario and the census of admitted creates / joins / sockets / messages is compared with the configured limits, joins after host disconnect or expiry must get 404; clients that keep hammering after a refusal must not earn tokens faster than the rate; a scripted random source forces join-code collisions (codes stay pairwise distinct and resolve to their own session). Server.tla carries peer ids: a receiver reconnecting under its own id replaces its hub entry while the old socket keeps its slot (negative control: reconnect admitted without a slot); scenarios against the real server: reconnect under the same peer id followed by another receiver, and hammering with forged X-Forwarded-For / X-Real-IP / Forwarded headers.",
+    text="TLC explores all interleavings of 4 concurrent requests under limit values {0,1,2} and checks admission-only-while-live, the three counted limits and 'zero means off' (check-then-act enforcement is refuted); the real binary is started per scenario and the census of admitted creates / joins / sockets / messages is compared with the configured limits, joins after host disconnect or expiry must get 404; clients that keep hammering after a refusal must not earn tokens faster than the rate; a scripted random source forces join-code collisions (codes stay pairwise distinct and resolve to their own session). Server.tla carries peer ids: a receiver reconnecting under its own id replaces its hub entry while the old socket keeps its slot (negative control: reconnect admitted without a slot); scenarios against the real server: reconnect under the same peer id followed by another receiver, and hammering with forged X-Forwarded-For / X-Real-IP / Forwarded headers. In-package test moving the bucket clock back (a silent minute must not restore the burst); a session lifetime of 800 ms must admit at 600 ms whatever the wall-clock phase at creation.",
     note="trusted: TLC, the delay mode of the hooks for deterministic bursts, wall-clock rate checks with slack")
 CHECKS["C16"] = dict(
     category="exploration", design_ref="5.11",
     technique="TLA+ spec Config.tla (configuration space as states, one contract) enumerated with TLC; every enumerated configuration is a real thruserv process exercised by the real client functions",
-    text="TLC enumerates 165 flag configurations (every flag at default / small / 0 with at most two (thorough three) flags off default, all-small, all-zero) and 99 TURN-spelling x peer-id-class combinations; for each the real server is started and the real CreateSession, URL builder and TURN URL parser must succeed and agree with independently recomputed credentials. In every configuration the two connected clients then exchange three rounds of addressed messages and must still be connected afterwards.",
+    text="TLC enumerates 165 flag configurations (every flag at default / small / 0 with at most two (thorough three) flags off default, all-small, all-zero) and 99 TURN-spelling x peer-id-class combinations; for each the real server is started and the real CreateSession, URL builder and TURN URL parser must succeed and agree with independently recomputed credentials. In every configuration the two connected clients then exchange three rounds of addressed messages and must still be connected afterwards. A TURN server that really answers (pion/turn in the sandbox, coturn's use-auth-secret scheme): for every spelling of its address and several peer-id classes the real ice.Prober must obtain a relay allocation with the minted credentials; IPv6 spellings; a second session must not invalidate the first.",
     note="trusted: TLC as enumerator; TURN servers are not contacted")
 
 NOT_APPLICABLE = {}
 
-HOOK_COMMITS = ["6b59734", "6335744", "5382be1", "5e921af", "851c4ba", "5063793", "42c67f4"]
+HOOK_COMMITS = ["6b59734", "6335744", "5382be1", "5e921af", "851c4ba", "5063793", "42c67f4", "011cabf"]
 
 
 def main():
